@@ -71,6 +71,10 @@ impl BuzHash {
     /// Should be used for processing input until hash is valid.
     pub fn init(&mut self, in_val: u8) {
         if !self.window_full {
+            // Keep the repeat counter in sync with the window content: the window ends
+            // with (one occurrence of) the byte last given to init.
+            self.last_input = in_val;
+            self.repeated_input = 0;
             let in_val = self.buzhash_table[in_val as usize];
             // Initialize sequence until window is full
             let shift = self.window - (self.index + 1);
